@@ -107,6 +107,9 @@ void harness (void)
   POST (IMP (allowed != NULL, g_contains_calls == 1), "find_mech: the allowed list is consulted");
   POST (IMP (m != NULL, g_eqc_true == m->mechanism), "find_mech: the entry returned is the one whose name equals the argument");
   POST (IMP (m == NULL && (allowed == NULL || g_allowed_answer), g_eqc_true == NULL), "find_mech: NULL only if no table name equals the argument");
+  POST (all_mechanisms[0].server_decode_func == NULL && all_mechanisms[1].server_decode_func == NULL && all_mechanisms[2].server_decode_func == NULL &&
+        all_mechanisms[0].server_encode_func == NULL && all_mechanisms[1].server_encode_func == NULL && all_mechanisms[2].server_encode_func == NULL && all_mechanisms[3].mechanism == NULL,
+        "find_mech: the mechanism table has three entries and none has an encode/decode layer");
   if (m) REACH ("found"); else REACH ("not-found");
 #elif VERIF_FN == 4
   DBusString word; c08_havoc_string (&word);
